@@ -47,6 +47,11 @@ type ReadPass struct {
 	Reuse bool `json:"reuse,omitempty"`
 	// Wrap: the concrete reader type the stream is handed over as (source.go).
 	Wrap string `json:"wrap,omitempty"`
+	// HeaderFirst != 0: some frames of the pass (chosen by this seed) are read
+	// the OTHER documented way — ReadHeader, then the caller reads the
+	// BodySize bytes itself — on the same reader the remaining frames are
+	// Unmarshal'ed from: every call still handles exactly one header / frame.
+	HeaderFirst uint64 `json:"header_first,omitempty"`
 }
 
 type FramesClean struct{}
@@ -92,6 +97,9 @@ func genPass(r *engine.PRNG) ReadPass {
 	if r.Chance(1, 3) {
 		p.StallSeed, p.StallDen = r.Uint64(), r.PickInt(2, 3, 5)
 	}
+	if r.Chance(1, 4) {
+		p.HeaderFirst = r.Uint64() | 1
+	}
 	return p
 }
 
@@ -130,6 +138,9 @@ func (FramesClean) Generate(seed uint64, tier string) engine.Plan {
 			m := genMsg(r, maxLen)
 			if i == bigAt {
 				m = genBigMsg(r)
+			}
+			if m.Kind == "list" && r.Chance(1, 2) {
+				m.Entries = 40 // (see MsgSpec.Entries; many buckets: two encodings almost never agree)
 			}
 			w.Msgs = append(w.Msgs, m)
 			total += int64(32 + m.bodyBound())
@@ -252,7 +263,7 @@ func checkFrameWritten(inv string, step int, spec MsgSpec, msg proto.Message, n 
 
 // readAll reads frames from s one per call and checks each against specs.
 // It is the reader half of the C06 oracle.
-func readAllFrames(inv string, stepBase int, s *simio.Stream, wrap string, data []byte, specs []MsgSpec, frameLens []int64, c *engine.RunCtx, task int, reuse bool) *engine.Failure {
+func readAllFrames(inv string, stepBase int, s *simio.Stream, wrap string, data []byte, specs []MsgSpec, frameLens []int64, c *engine.RunCtx, task int, reuse bool, headerFirst uint64) *engine.Failure {
 	src := newSource(wrap, s, data)
 	if wrap != "" {
 		c.Stats.Inc("probe.C06.source_is_" + wrap)
@@ -276,6 +287,36 @@ func readAllFrames(inv string, stepBase int, s *simio.Stream, wrap string, data 
 		}
 		before := src.pos()
 		src.beginCall()
+		if headerFirst != 0 && engine.H(headerFirst, uint64(i))%3 == 0 {
+			// ReadHeader, then the body by hand
+			c.Stats.Inc("probe.C06.frame_read_as_ReadHeader_plus_body_by_hand")
+			c.Status.SetStep(uint64(step), 1)
+			hn, h, herr, hpan := callReadHeader(src.r)
+			c.Status.SetStep(uint64(step), 0)
+			c.LibCalls++
+			c.EvS(task, "readheader", "", hn, int64(src.pos()-before))
+			if hpan != nil {
+				return engine.Failf(inv+".panic", step, "ReadHeader of frame %d panicked: %v", i, hpan)
+			}
+			if herr != nil || hn != 32 || h == nil {
+				return engine.Failf(inv+".readheader", step, "ReadHeader at the start of complete frame %d = (%d, %v, %v), want (32, header, nil)", i, hn, h, herr)
+			}
+			if int64(src.pos()-before) != 32 {
+				return engine.Failf(inv+".consumed", step, "ReadHeader of frame %d returned n=32 but consumed %d bytes of the reader it was given (%q)", i, src.pos()-before, wrap)
+			}
+			if !verOK(h.GetVersion(), spec.WantVersions()) || h.GetHeaderSize() != 32 || h.GetBodySize() != frameLens[i]-32 {
+				return engine.Failf(inv+".readheader", step, "ReadHeader of frame %d reports (version %q, header %d, body %d), want (one of %q, 32, %d)", i, h.GetVersion(), h.GetHeaderSize(), h.GetBodySize(), spec.WantVersions(), frameLens[i]-32)
+			}
+			body := make([]byte, h.GetBodySize())
+			if _, e := io.ReadFull(src.r, body); e != nil {
+				panic(engine.HarnessError{Msg: "reading a body by hand failed: " + e.Error()})
+			}
+			if e := proto.Unmarshal(body, msg); e != nil || !spec.SameContent(msg) {
+				return engine.Failf(inv+".body", step, "the %d bytes after the header ReadHeader returned for frame %d do not decode to the original message (err=%v)", len(body), i, e)
+			}
+			keptVer[i] = h.GetVersion()
+			continue
+		}
 		c.Status.SetStep(uint64(step), 1)
 		n, ver, err, pan := callUnmarshal(src.r, msg)
 		c.Status.SetStep(uint64(step), 0)
@@ -495,7 +536,7 @@ func (FramesClean) Execute(pl engine.Plan, c *engine.RunCtx) *engine.Failure {
 			if pass.Via == "atreader" && (wrap == "bytesreader" || wrap == "bytesbuffer") {
 				wrap = "" // keep the real AtToReader in the path
 			}
-			if f := readAllFrames("C06", 100000+wi*10000+pi*100, stream, wrap, s.written, w.Msgs, s.frameLens, c, wi, pass.Reuse); f != nil {
+			if f := readAllFrames("C06", 100000+wi*10000+pi*100, stream, wrap, s.written, w.Msgs, s.frameLens, c, wi, pass.Reuse, pass.HeaderFirst); f != nil {
 				return f
 			}
 			if len(w.Msgs) > 1 {
